@@ -150,8 +150,10 @@ class MarkoModel:
         if mc.repo_cls is not None:
             gt = mc.repo_cls.methods.get("get_type")
             if gt is not None:
-                consts = [n.value for n in ast.walk(gt.node) if isinstance(n, ast.Constant) and isinstance(n.value, str)
-                          and n.value and n.value[0].isupper()]
+                # the CamelCase name among the strings the method can *return* (docstrings and comments do not count)
+                consts = sorted({n.value for r in ast.walk(gt.node) if isinstance(r, ast.Return) and r.value is not None
+                                 for n in ast.walk(r.value) if isinstance(n, ast.Constant) and isinstance(n.value, str)
+                                 and n.value and n.value[0].isupper()})
                 if len(consts) == 1:
                     return consts[0]
                 raise AnalysisError(f"get_type override of {mc.repo_cls.qual} not understood")
